@@ -102,7 +102,7 @@ def constants_module(descs, module="MC_DF", extends="Dataflow", extra=""):
 
 CFG_CONST = "CONSTANT Nets <- cNets\n"
 SAFETY = ["ReturnMeansAllDone", "FailureMeansRaise", "OneTermPerStep", "ProvenanceOK", "PutImpliesPersisted",
-          "ProvAcyclicByConstruction", "Confluent", "OnlyCloseCancelRaises"]
+          "ProvAcyclicByConstruction", "Confluent", "OnlyCloseCancelRaises", "QuiescentMeansEnded"]
 
 
 def cfg(liveness=True, invariants=None, spec="SpecQ"):
@@ -114,7 +114,7 @@ def cfg(liveness=True, invariants=None, spec="SpecQ"):
 
 
 TRACE_CFG = CFG_CONST + "INIT TInit\nNEXT TNext\nINVARIANT Accept\nCONSTRAINT Diag\n" + \
-    "".join("INVARIANT %s\n" % i for i in SAFETY if i not in ("Confluent",))
+    "".join("INVARIANT %s\n" % i for i in SAFETY if i not in ("Confluent", "QuiescentMeansEnded"))
 
 
 # ------------------------------------------------------------------------------------------------
